@@ -74,6 +74,14 @@ type GhostVar struct {
 	Pkg  string
 }
 
+// SharedType: a type whose values may be used by several goroutines; Guarded maps field -> mutex field.
+type SharedType struct {
+	Pkg     string
+	Name    string
+	Guarded map[string]string
+	File    string
+}
+
 type Lemma struct {
 	Name string
 	Pkg  string
@@ -86,6 +94,7 @@ type ContractDB struct {
 	Pures  map[string]*PureFunc // by name (and ".name" for preds)
 	Ghosts map[string]*GhostVar
 	Lemmas []*Lemma
+	Shared []*SharedType // lock-discipline declarations
 	Files  []string
 	Scan   []string // lines containing assume/axiom/trusted (reported in evidence)
 }
@@ -102,7 +111,7 @@ var (
 	reGhost     = regexp.MustCompile(`^ghost\s+var\s+(\w+)\s+([\w.*\[\]]+)\s*$`)
 	reLet       = regexp.MustCompile(`^let\s+(\w+)\s*:=\s*(.*)$`)
 	keywordsSet = map[string]bool{"package": true, "func": true, "trusted": true, "requires": true, "ensures": true, "modifies": true,
-		"let": true, "loop": true, "foreach": true, "case": true, "assumes": true, "tracks": true, "pure": true, "pred": true, "uninterp": true, "ghost": true, "lemma": true, "attr": true}
+		"let": true, "loop": true, "foreach": true, "case": true, "assumes": true, "tracks": true, "shared": true, "guarded": true, "pure": true, "pred": true, "uninterp": true, "ghost": true, "lemma": true, "attr": true}
 )
 
 type rawClause struct {
@@ -217,6 +226,15 @@ func (db *ContractDB) loadContractFile(path, pkg string) error {
 			} else {
 				cur.Attrs[rest] = "true"
 			}
+		case "shared":
+			db.Shared = append(db.Shared, &SharedType{Pkg: pkg, Name: rest, Guarded: map[string]string{}, File: path})
+			cur = nil
+		case "guarded":
+			f := strings.Fields(rest)
+			if len(db.Shared) == 0 || len(f) != 3 || f[1] != "by" {
+				return fail(fmt.Errorf("guarded <field> by <mutex> must follow a shared declaration"))
+			}
+			db.Shared[len(db.Shared)-1].Guarded[f[0]] = f[2]
 		case "tracks":
 			if cur == nil {
 				return fail(fmt.Errorf("tracks outside func"))
